@@ -448,7 +448,7 @@ type exec struct {
 	t    *vkit.T
 	plan *TestPlan
 	next int
-	idx  int // 1-based execution number of this test in the process
+	idx  int  // 1-based execution number of this test in the process
 	cb   bool // the cleanup callback of the plan has been registered
 }
 
